@@ -412,3 +412,216 @@ def malformed(rng, seeds):
 OPTION_SETS = ['-', 'lang=de', 'lang=en', 'lang=\u65e5\u672c,\u00f6', 'lang=\u00f6-x', 'dpi=10', 'dpi=72', 'dpi=300', 'dpi=4000', 'dw=1;dh=1', 'dw=10000;dh=3', 'lang=ru,de', 'lang=',
                'css=' + '*{stroke-width:1e300;fill:url(#g1)} rect{marker:url(#g2);font:bold 1e40px x}'.encode().hex(),
                'css=' + 'svg{display:none}'.encode().hex(), 'nofonts', 'nofonts;dpi=4000', 'fs=0', 'fs=1e30']
+
+
+# ------------------------------------------------------------------------------------------------ round 4
+# (a) reference chains of every link kind in every shape: tail t + cycle c (c = 0: plain chain; t >= 1 and c >= 1: the
+#     rho shape, whose cycle does not contain the node the walk starts from), with the units attributes that keep the
+#     cacheability / conversion walks going.  (b) numeric fields that are finite one by one but overflow f32 in the sums and
+#     products the converter forms before it calls a validated constructor.  (c) definition chains with fan-out 2 reached
+#     directly and through use / symbol / nested svg / marker contexts.
+LINK_UNITS = {
+    'mask': ['', 'maskUnits="userSpaceOnUse" x="0" y="0" width="9" height="9"',
+             'maskUnits="userSpaceOnUse" maskContentUnits="userSpaceOnUse"', 'maskContentUnits="objectBoundingBox"'],
+    'clip-path': ['', 'clipPathUnits="userSpaceOnUse"', 'clipPathUnits="objectBoundingBox"'],
+    'filter-href': ['', 'filterUnits="userSpaceOnUse" primitiveUnits="userSpaceOnUse" x="0" y="0" width="9" height="9"'],
+    'lg-href': ['', 'gradientUnits="userSpaceOnUse"'],
+    'rg-href': ['', 'gradientUnits="userSpaceOnUse"'],
+    'pattern-href': ['', 'patternUnits="userSpaceOnUse" width="2" height="2"'],
+    'pattern-fill': ['width="1" height="1"', 'patternUnits="userSpaceOnUse" width="2" height="2"',
+                     'patternUnits="userSpaceOnUse" patternContentUnits="objectBoundingBox" width="2" height="2"'],
+    'use': [''],
+    'feimage': ['', 'filterUnits="userSpaceOnUse" primitiveUnits="userSpaceOnUse" x="0" y="0" width="9" height="9"'],
+    'marker': ['', 'markerUnits="userSpaceOnUse" overflow="visible"'],
+    'mixed': ['', 'maskUnits="userSpaceOnUse" clipPathUnits="userSpaceOnUse" patternUnits="userSpaceOnUse" width="2" height="2"'],
+}
+
+
+def _link_node(kind, i, j, units, last_plain):
+    """definition number i of a chain of kind `kind`, linking to definition j (None: end of a plain chain)"""
+    R = '<rect width="5" height="5" fill="white"/>'
+    if kind == 'mask':
+        return '<mask id="n%d" %s%s>%s</mask>' % (i, units, '' if j is None else ' mask="url(#n%d)"' % j, R)
+    if kind == 'clip-path':
+        return '<clipPath id="n%d" %s%s>%s</clipPath>' % (i, units, '' if j is None else ' clip-path="url(#n%d)"' % j, R)
+    if kind == 'filter-href':
+        return '<filter id="n%d" %s%s>%s</filter>' % (i, units, '' if j is None else ' xlink:href="#n%d"' % j, '<feFlood/>' if j is None else '')
+    if kind in ('lg-href', 'rg-href'):
+        t = 'linearGradient' if kind == 'lg-href' else 'radialGradient'
+        return '<%s id="n%d" %s%s>%s</%s>' % (t, i, units, '' if j is None else ' xlink:href="#n%d"' % j,
+                                             '<stop offset="0"/><stop offset="1" stop-color="red"/>' if j is None else '', t)
+    if kind == 'pattern-href':
+        return '<pattern id="n%d" %s%s>%s</pattern>' % (i, units, '' if j is None else ' xlink:href="#n%d"' % j, R if j is None else '')
+    if kind == 'pattern-fill':
+        return '<pattern id="n%d" %s><rect width="1" height="1"%s/></pattern>' % (i, units, '' if j is None else ' fill="url(#n%d)"' % j)
+    if kind == 'use':
+        return '<use id="n%d"%s/>' % (i, ' xlink:href="#leaf"' if j is None else ' xlink:href="#n%d"' % j)
+    if kind == 'feimage':
+        return ('<filter id="n%d" %s><feImage xlink:href="#r%d"/></filter><rect id="r%d" width="3" height="3"%s/>'
+                % (i, units, i, i, '' if j is None else ' filter="url(#n%d)"' % j))
+    if kind == 'marker':
+        return '<marker id="n%d" %s><path d="M0 0 L1 0 L1 1"%s/></marker>' % (i, units, '' if j is None else ' marker-mid="url(#n%d)"' % j)
+    if kind == 'mixed':
+        t, att = [('mask', 'mask'), ('clipPath', 'clip-path'), ('pattern', 'fill')][i % 3], None
+        nxt = '' if j is None else ' %s="url(#n%d)"' % ([('mask', 'mask'), ('clipPath', 'clip-path'), ('pattern', 'fill')][j % 3][1], j)
+        return '<%s id="n%d" %s><rect width="1" height="1"%s/></%s>' % (t[0], i, units, nxt, t[0])
+    raise ValueError(kind)
+
+
+LINK_START = {'mask': 'mask="url(#n0)"', 'clip-path': 'clip-path="url(#n0)"', 'filter-href': 'filter="url(#n0)"', 'lg-href': 'fill="url(#n0)"',
+              'rg-href': 'stroke="url(#n0)"', 'pattern-href': 'fill="url(#n0)"', 'pattern-fill': 'fill="url(#n0)" stroke="url(#n0)"',
+              'feimage': 'filter="url(#n0)"', 'mixed': 'mask="url(#n0)"'}
+
+
+def link_chain_docs(tails=(0, 1, 2, 3), cycles=(0, 1, 2, 3, 4)):
+    out = []
+    for kind, unitss in LINK_UNITS.items():
+        for ui, units in enumerate(unitss):
+            for t in tails:
+                for c in cycles:
+                    n = t + c
+                    if n == 0:
+                        continue
+                    defs = ''
+                    for i in range(n):
+                        j = i + 1 if i + 1 < n else (t if c else None)
+                        defs += _link_node(kind, i, j, units, c == 0)
+                    if kind == 'use':
+                        body = '<g id="leaf"><rect width="1" height="1"/></g>' + defs
+                        defs = ''
+                    elif kind == 'marker':
+                        body = '<path d="M0 0 L5 0 L5 5" stroke="black" marker-start="url(#n0)" marker-mid="url(#n0)"/>'
+                    else:
+                        body = '<rect x="1" y="1" width="8" height="8" %s/>' % LINK_START[kind]
+                    for ctx in (('', '') if (t + c + ui) % 3 else ('<defs><g id="ctx">', '</g></defs><use xlink:href="#ctx"/>'),):
+                        out.append(("link chain %s units#%d tail %d cycle %d%s" % (kind, ui, t, c, ' in use' if ctx[0] else ''),
+                                    '<svg %s width="10" height="10"><defs>%s</defs>%s%s%s</svg>' % (NS, defs, ctx[0], body, ctx[1])))
+    return out
+
+
+BIG = ['3e38', '-3e38', '1e35', '-1e35', '3.4e38', '1.8e38', '1e32', '4e32', '1e20', '-1e20', '1e-40', '0', '1', '-1', '1e38', '2e19', '16777216', '0.5']
+
+
+def convolve_docs():
+    """feConvolveMatrix without / with `divisor`: kernel values that are finite but whose sum (or sum * 1e6) overflows, is NaN
+    (+inf + -inf partial sums), cancels to 0, is tiny"""
+    out = []
+    kernels = []
+    for order in (1, 2, 3):
+        n = order * order
+        for v in ('1e35', '-1e35', '3e38', '-3e38', '1e32', '4e32', '1e-40', '0', '1e38', '3.4e38'):
+            kernels.append((order, ' '.join([v] * n)))
+        if n > 1:
+            kernels.append((order, ' '.join((['3e38', '3e38', '-3e38', '-3e38', '3e38'] * n)[:n])))
+            kernels.append((order, ' '.join((['3e38', '-3e38'] * n)[:n])))
+            kernels.append((order, ' '.join((['1', '3e38', '3e38'] * n)[:n])))
+    for order, k in kernels:
+        for extra in ('', 'divisor="0"', 'divisor="1e-40"', 'divisor="3e38" bias="3e38"', 'preserveAlpha="true" targetX="0" targetY="0"',
+                      'kernelUnitLength="3e38 3e38" edgeMode="wrap"'):
+            out.append(("convolve order %d kernel %s %s" % (order, k[:30], extra),
+                        '<svg %s width="10" height="10"><filter id="f"><feConvolveMatrix order="%d" kernelMatrix="%s" %s/></filter>'
+                        '<rect width="8" height="8" filter="url(#f)"/></svg>' % (NS, order, k, extra)))
+    return out
+
+
+SUM_TEMPLATES = [
+    '<rect x="#" y="#" width="#" height="#" rx="2" stroke="black" stroke-width="#"/>',
+    '<rect width="5" height="5" stroke="black" stroke-dasharray="# # #" stroke-dashoffset="#"/>',
+    '<circle cx="#" cy="#" r="3"/>', '<ellipse cx="#" cy="#" rx="2" ry="3"/>', '<line x1="#" y1="#" x2="#" y2="#" stroke="red"/>',
+    '<polyline points="# # # # # #" stroke="red"/>', '<path d="M # # L # # C # # # # # # Z" stroke="red" stroke-width="#"/>',
+    '<g transform="scale(#) translate(# #)"><g transform="scale(# #) rotate(# # #)"><rect width="#" height="#"/></g></g>',
+    '<g transform="matrix(# # # # # #)"><rect width="1" height="1" transform="matrix(# # # # # #)"/></g>',
+    '<svg x="#" y="#" width="#" height="#" viewBox="# # # #"><rect width="1" height="1"/></svg>',
+    '<symbol id="sy@" viewBox="# # # #"><rect width="1" height="1"/></symbol><use xlink:href="#sy@" x="#" y="#" width="#" height="#"/>',
+    '<linearGradient id="lg@" x1="#" y1="#" x2="#" y2="#" gradientTransform="scale(#) scale(#)" gradientUnits="$U"><stop offset="#"/><stop offset="#" stop-color="red" stop-opacity="#"/></linearGradient><rect width="9" height="9" fill="url(#lg@)"/>',
+    '<radialGradient id="rg@" cx="#" cy="#" r="#" fx="#" fy="#" fr="#" gradientUnits="$U"><stop offset="0"/><stop offset="1" stop-color="red"/></radialGradient><rect width="9" height="9" stroke="url(#rg@)" stroke-width="#"/>',
+    '<pattern id="pt@" x="#" y="#" width="#" height="#" viewBox="# # # #" patternUnits="$U" patternContentUnits="$U" patternTransform="scale(#)"><rect width="#" height="#"/></pattern><rect x="#" width="9" height="9" fill="url(#pt@)"/>',
+    '<mask id="mk@" x="#" y="#" width="#" height="#" maskUnits="$U" maskContentUnits="$U"><rect width="#" height="#" fill="white"/></mask><rect x="#" y="#" width="#" height="#" mask="url(#mk@)"/>',
+    '<clipPath id="cp@" clipPathUnits="$U" transform="scale(# #)"><rect x="#" width="#" height="#"/></clipPath><rect x="#" width="#" height="#" clip-path="url(#cp@)"/>',
+    '<marker id="mr@" markerWidth="#" markerHeight="#" refX="#" refY="#" viewBox="# # # #" markerUnits="$M"><rect width="1" height="1"/></marker><path d="M0 0 L5 0 L5 5" stroke="black" stroke-width="#" marker-mid="url(#mr@)"/>',
+    '<filter id="fl@" x="#" y="#" width="#" height="#" filterUnits="$U" primitiveUnits="$U">$P</filter><rect x="#" y="#" width="#" height="#" filter="url(#fl@)"/>',
+    '<filter id="fl@">$P$P</filter><rect width="9" height="9" filter="url(#fl@)"/>',
+    '<filter id="fl@" primitiveUnits="objectBoundingBox">$P</filter><g filter="url(#fl@)"><rect x="#" width="#" height="#"/></g>',
+]
+SUM_PRIMS = [
+    '<feOffset dx="#" dy="#" x="#" y="#" width="#" height="#"/>', '<feGaussianBlur stdDeviation="# #"/>', '<feMorphology radius="# #" operator="dilate"/>',
+    '<feTurbulence baseFrequency="# #" numOctaves="#" seed="#"/>', '<feDropShadow dx="#" dy="#" stdDeviation="# #"/>',
+    '<feComposite operator="arithmetic" k1="#" k2="#" k3="#" k4="#"/>', '<feColorMatrix type="matrix" values="# # # # # # # # # # # # # # # # # # # #"/>',
+    '<feColorMatrix type="saturate" values="#"/>', '<feColorMatrix type="hueRotate" values="#"/>',
+    '<feComponentTransfer><feFuncR type="table" tableValues="# # #"/><feFuncG type="linear" slope="#" intercept="#"/><feFuncB type="gamma" amplitude="#" exponent="#" offset="#"/><feFuncA type="discrete" tableValues="# #"/></feComponentTransfer>',
+    '<feConvolveMatrix order="2" kernelMatrix="# # # #"/>', '<feConvolveMatrix order="3 1" kernelMatrix="# # #" bias="#"/>', '<feConvolveMatrix order="1" kernelMatrix="#" divisor="#"/>',
+    '<feDiffuseLighting surfaceScale="#" diffuseConstant="#"><fePointLight x="#" y="#" z="#"/></feDiffuseLighting>',
+    '<feSpecularLighting surfaceScale="#" specularConstant="#" specularExponent="#"><feSpotLight x="#" y="#" z="#" pointsAtX="#" pointsAtY="#" pointsAtZ="#" specularExponent="#" limitingConeAngle="#"/></feSpecularLighting>',
+    '<feDiffuseLighting><feDistantLight azimuth="#" elevation="#"/></feDiffuseLighting>', '<feDisplacementMap scale="#" in2="SourceGraphic"/>',
+    '<feTile x="#" y="#" width="#" height="#"/>', '<feFlood flood-opacity="#" x="#" width="#"/>', '<feImage xlink:href="#nope" x="#" y="#" width="#" height="#"/>',
+]
+
+
+def sum_doc(rng):
+    """1-3 templates, every numeric slot filled from BIG with probability 1/2 (else a small sane number)"""
+    body = ''
+    for k in range(1 + rng.below(3)):
+        t = rng.choice(SUM_TEMPLATES)
+        while '$P' in t:
+            t = t.replace('$P', rng.choice(SUM_PRIMS), 1)
+        while '$U' in t:
+            t = t.replace('$U', rng.choice(['userSpaceOnUse', 'objectBoundingBox']), 1)
+        t = t.replace('$M', rng.choice(['userSpaceOnUse', 'strokeWidth'])).replace('@', str(k))
+        hot = 1 + rng.below(3)
+        # a numeric slot is a `#` that does not start a reference (`#id`)
+        body += re.sub(r'#(?![A-Za-z])', lambda m: rng.choice(BIG) if rng.below(3) < hot else rng.choice(['0', '1', '2', '5', '0.5', '10']), t)
+    return '<svg %s width="10" height="10">%s</svg>' % (NS, body)
+
+
+BOMB_KINDS = {
+    # kind: (definition template with %(i)d / %(ref)s, leaf template, reference from a shape, cached on HEAD)
+    'pattern-uso': ('<pattern id="d%(i)d" patternUnits="userSpaceOnUse" width="2" height="2"><rect width="1" height="1" fill="url(#d%(j)d)" stroke="url(#d%(j)d)"/></pattern>',
+                    '<pattern id="d%(i)d" patternUnits="userSpaceOnUse" width="2" height="2"><rect width="1" height="1"/></pattern>', 'fill="url(#d0)"', True),
+    'pattern-obb': ('<pattern id="d%(i)d" width="1" height="1"><rect width="1" height="1" fill="url(#d%(j)d)" stroke="url(#d%(j)d)"/></pattern>',
+                    '<pattern id="d%(i)d" width="1" height="1"><rect width="1" height="1"/></pattern>', 'fill="url(#d0)"', False),
+    'mask-uso': ('<mask id="d%(i)d" maskUnits="userSpaceOnUse" x="0" y="0" width="9" height="9"><rect width="9" height="9" fill="white" mask="url(#d%(j)d)"/><rect width="5" height="5" fill="white" mask="url(#d%(j)d)"/></mask>',
+                 '<mask id="d%(i)d" maskUnits="userSpaceOnUse" x="0" y="0" width="9" height="9"><rect width="9" height="9" fill="white"/></mask>', 'mask="url(#d0)"', True),
+    'mask-obb': ('<mask id="d%(i)d"><rect width="9" height="9" fill="white" mask="url(#d%(j)d)"/><rect width="5" height="5" fill="white" mask="url(#d%(j)d)"/></mask>',
+                 '<mask id="d%(i)d"><rect width="9" height="9" fill="white"/></mask>', 'mask="url(#d0)"', False),
+    'clip-uso': ('<clipPath id="d%(i)d"><rect width="9" height="9" clip-path="url(#d%(j)d)"/><rect width="5" height="5" clip-path="url(#d%(j)d)"/></clipPath>',
+                 '<clipPath id="d%(i)d"><rect width="9" height="9"/></clipPath>', 'clip-path="url(#d0)"', True),
+    'clip-obb': ('<clipPath id="d%(i)d" clipPathUnits="objectBoundingBox"><rect width="1" height="1" clip-path="url(#d%(j)d)"/><rect width="0.5" height="0.5" clip-path="url(#d%(j)d)"/></clipPath>',
+                 '<clipPath id="d%(i)d" clipPathUnits="objectBoundingBox"><rect width="1" height="1"/></clipPath>', 'clip-path="url(#d0)"', False),
+    'filter-uso': ('<filter id="d%(i)d" filterUnits="userSpaceOnUse" primitiveUnits="userSpaceOnUse" x="0" y="0" width="9" height="9"><feImage xlink:href="#fa%(i)d"/><feImage xlink:href="#fb%(i)d"/></filter>'
+                   '<rect id="fa%(i)d" width="3" height="3" filter="url(#d%(j)d)"/><rect id="fb%(i)d" width="2" height="2" filter="url(#d%(j)d)"/>',
+                   '<filter id="d%(i)d" filterUnits="userSpaceOnUse" primitiveUnits="userSpaceOnUse" x="0" y="0" width="9" height="9"><feFlood/></filter>', 'filter="url(#d0)"', True),
+    'filter-obb': ('<filter id="d%(i)d"><feImage xlink:href="#fa%(i)d"/><feImage xlink:href="#fb%(i)d"/></filter>'
+                   '<rect id="fa%(i)d" width="3" height="3" filter="url(#d%(j)d)"/><rect id="fb%(i)d" width="2" height="2" filter="url(#d%(j)d)"/>',
+                   '<filter id="d%(i)d"><feFlood/></filter>', 'filter="url(#d0)"', False),
+    'marker': ('<marker id="d%(i)d" overflow="visible"><path d="M0 0 L1 1" marker-start="url(#d%(j)d)" marker-end="url(#d%(j)d)"/></marker>',
+               '<marker id="d%(i)d"><rect width="1" height="1"/></marker>', None, False),
+}
+BOMB_CONTEXTS = ['direct', 'use', 'symbol', 'svg', 'marker', 'use-use']
+
+
+def context_bomb_docs(deep=18, shallow=7):
+    """chains of `depth` definitions, each referencing the next one twice, reached directly and through a use, a symbol, a
+    nested svg, a marker, a use of a use.  Kinds that the converter caches (one conversion per definition) get depth `deep`,
+    the ones it converts per reference (class reference-fan-out-exponential) depth `shallow`."""
+    out = []
+    for kind, (tmpl, leaf, start, cached) in BOMB_KINDS.items():
+        depth = deep if cached else shallow
+        defs = ''.join((tmpl if i < depth - 1 else leaf) % dict(i=i, j=i + 1) for i in range(depth))
+        shape = ('<rect x="1" y="1" width="8" height="8" %s/>' % start) if start else \
+            '<path d="M0 0 L5 0 L5 5" stroke="black" marker-start="url(#d0)" marker-end="url(#d0)"/>'
+        for c in BOMB_CONTEXTS:
+            if c == 'direct':
+                body = shape
+            elif c == 'use':
+                body = '<defs><g id="cx">%s</g></defs><use xlink:href="#cx"/>' % shape
+            elif c == 'symbol':
+                body = '<symbol id="cx">%s</symbol><use xlink:href="#cx" width="10" height="10"/>' % shape
+            elif c == 'svg':
+                body = '<svg x="0" y="0" width="10" height="10">%s</svg>' % shape
+            elif c == 'marker':
+                body = '<marker id="cx" overflow="visible">%s</marker><path d="M1 1 L5 5" stroke="black" marker-start="url(#cx)"/>' % shape
+            else:
+                body = '<defs><g id="cx">%s</g><use id="cy" xlink:href="#cx"/></defs><use xlink:href="#cy"/>' % shape
+            out.append(("context bomb %s 2^%d via %s" % (kind, depth, c), cached,
+                        '<svg %s width="10" height="10"><defs>%s</defs>%s</svg>' % (NS, defs, body)))
+    return out
